@@ -34,6 +34,10 @@ ALSO = {
     "C04-r6m2": ["C20"],
     "C04-r7m1": ["C06"],
     "C04-r7m2": ["C05"],
+    "C02-r8m2": ["C14"],
+    "C04-r8m1": ["C05"],
+    "C08-r8m2": ["C10"],
+    "C11-r8m2": ["C10"],
 }
 NOTE = {
     "C05-r2m2": "trigger outside C05's quantifier",
@@ -54,12 +58,27 @@ NOTE = {
     "C14-r7m2": "needs one @-line that triggers disable and then enable in the middle of an episode: the filter's own "
                 "exit travel then re-enters the hook with exclusion on again and is itself excluded, which the "
                 "episode tracker does not model (DESIGN section 11); not generated, not caught",
+    "C02-r8m2": "needs a settings update that fails half-way (an @-action entry that cannot be constructed); generated "
+                "in C14's profile, where it is reported",
+    "C04-r8m1": "the E coordinate and the pushes of the file's own moves stay right; the forgotten retraction makes "
+                "printing resume retracted - C05's subject",
+    "C08-r8m2": "needs the global g90InfluencesExtruder feature switched while the server runs - a history, not an "
+                "encoding of the tool path; C10's histories contain it",
+    "C11-r8m2": "the lifecycle gate itself is intact; the print starts from a state that is not clean - C10's subject",
+    "C10-r8m2": "needs `G28 O` (home only if not homed yet), which is outside the generated dialect: the filter does "
+                "not implement the O flag at all, so the reference printer and the filter disagree on it anyway",
+    "C15-r8m2": "needs motion into a region between two afterPrintDone invocations of one job (the body of the "
+                "user's afterPrintDone script); the end-of-job op repeats the hook without traffic in between",
+    "C20-r8m1": "the change shares bound methods between handler instances through a class-level cache; runs stop "
+                "being reproducible, the check ends with HARNESS-ERROR (exit 2), not with a VIOLATION line",
 }
 MISSED_FIRST_NEW = {"C02-r5m1", "C02-r5m2", "C03-r5m2", "C04-r5m1", "C05-r5m1", "C06-r5m1", "C07-r5m1", "C07-r5m2",
                     "C08-r5m2", "C09-r5m2", "C12-r5m1", "C13-r5m1", "C14-r5m1",
                     "C02-r6m1", "C02-r6m2", "C04-r6m1", "C04-r6m2", "C05-r6m2", "C07-r6m2", "C09-r6m2", "C12-r6m2",
                     "C15-r6m2", "C20-r6m1", "C20-r6m2",
-                    "C02-r7m1", "C04-r7m1", "C04-r7m2", "C06-r7m2", "C11-r7m1", "C14-r7m2", "C20-r7m1"}
+                    "C02-r7m1", "C04-r7m1", "C04-r7m2", "C06-r7m2", "C11-r7m1", "C14-r7m2", "C20-r7m1",
+                    "C02-r8m2", "C04-r8m1", "C04-r8m2", "C06-r8m2", "C08-r8m2", "C09-r8m2", "C10-r8m1", "C10-r8m2",
+                    "C11-r8m2", "C14-r8m1", "C14-r8m2", "C15-r8m2", "C20-r8m1"}
 
 
 def ids():
